@@ -61,7 +61,22 @@ def box(rng, quick):
     return ms
 
 
-def one(name, model, T, rng, quick, twin=None):
+def random_box(rng, reps):
+    """seeded parameters inside a documented box (price clauses only: the density clauses are stated for the fixed models)"""
+    from rpylib.model.utils import create_exponential_of_levy_model as C, ModelType as MT
+    u = rng.uniform
+    out = []
+    for rep in range(reps):
+        base = dict(spot=u(50, 150), r=u(0, 0.06), d=u(0, 0.04))
+        out.append((f"rnd{rep}:hem", C(MT.HEM)(**base, sigma=u(.1, .3), p=u(.3, .7), eta1=u(8, 40), eta2=u(8, 40), intensity=u(.5, 5))))
+        out.append((f"rnd{rep}:merton", C(MT.MERTON)(**base, sigma=u(.1, .3), mu_j=u(.01, .15), sigma_j=u(.05, .3), intensity=u(.5, 3))))
+        out.append((f"rnd{rep}:vg", C(MT.VG)(**base, sigma=u(.1, .3), nu=u(.05, .4), theta=u(-.2, .2))))
+        out.append((f"rnd{rep}:cgmy", C(MT.CGMY)(**base, c=u(.5, 2), g=u(5, 25), m=u(5, 25), y=u(.1, 1.5))))
+        out.append((f"bs:rnd{rep}", C(MT.BLACKSCHOLES)(**base, sigma=u(.1, .5))))
+    return out
+
+
+def one(name, model, T, rng, quick, twin=None, light=False):
     from rpylib.numerical.cosmethod import COSPricer
     from rpylib.numerical.fft import FFTPricer
     from rpylib.numerical.closedform.cfblackscholes import CFBlackScholes
@@ -122,7 +137,7 @@ def one(name, model, T, rng, quick, twin=None):
             for x, y in zip(ct, c):
                 rows.append([quantise(x, unit), quantise(y, unit)])
         ev.append({"e": "Agree", "rows": rows})
-        if T < 0.09:
+        if T < 0.09 or light:
             # at very short maturities the law of a pure-jump model is too peaked for the cosine series of the DENSITY to
             # have converged (the prices, which integrate it, have): the density clauses are stated for T >= 0.1
             return {"hdr": hdr, "ev": ev}
@@ -187,6 +202,9 @@ def main():
                 from rpylib.model.utils import create_exponential_of_levy_model, ModelType
                 twin = create_exponential_of_levy_model(ModelType.CGMY)(r=0.01, d=0.03)
             traces.append(one(name, m, T, rng, quick, twin=twin))
+    for name, m in random_box(rng, 1 if quick else 8):
+        for T in ([0.5] if quick else [0.1, 0.5, 1.0, 2.0]):
+            traces.append(one(name, m, T, rng, True, light=True))
     traces.append(degenerate(rng))
     with open(out, "w") as f:
         for k, t in enumerate(traces):
